@@ -136,7 +136,7 @@ func genTrkwire(r *Rng, n int, tier string) []Case {
 	return cases
 }
 
-func wireRequest(m map[string]string) tracker.AnnounceRequest {
+func trkWireRequest(m map[string]string) tracker.AnnounceRequest {
 	var t tracker.Torrent
 	copy(t.InfoHash[:], unhex(m["ih"]))
 	copy(t.PeerID[:], unhex(m["pid"]))
@@ -153,7 +153,7 @@ func execTrkwire(ops []string) []string {
 		m := kv(op)
 		switch m["_"] {
 		case "udp":
-			pkt := udptracker.VerifBuildAnnounce(wireRequest(m), string(unhex(m["url"])), int64(atou(m["conn"])), int32(uint32(atou(m["tx"]))))
+			pkt := udptracker.VerifBuildAnnounce(trkWireRequest(m), string(unhex(m["url"])), int64(atou(m["conn"])), int32(uint32(atou(m["tx"]))))
 			obs = append(obs, hexs(pkt))
 		case "udpconn":
 			obs = append(obs, hexs(udptracker.VerifBuildConnect(int32(uint32(atou(m["tx"]))))))
@@ -165,7 +165,7 @@ func execTrkwire(ops []string) []string {
 			}
 			u, _ := url.Parse(raw)
 			tr := httptracker.New(raw, u, 10*time.Second, &http.Transport{DisableKeepAlives: true}, "verif", 1<<20)
-			req := wireRequest(m)
+			req := trkWireRequest(m)
 			ctx, cancel := context.WithTimeout(context.Background(), 10*time.Second)
 			tid := m["tid"]
 			if tid == "-" {
